@@ -60,10 +60,24 @@ func (m *mctx) setOpt(n string, v interface{}) error {
 }
 
 func (m *mctx) recvCall() ([]byte, error) {
+	var msg *mangos.Message
+	var err error
 	if m.c != nil {
-		return m.c.Recv()
+		msg, err = m.c.RecvMsg()
+	} else {
+		msg, err = m.s.RecvMsg()
 	}
-	return m.s.Recv()
+	if err != nil {
+		return nil, err
+	}
+	b := append([]byte{}, msg.Body...)
+	// the application owns what it received: overwriting it in place must not be seen by
+	// another context that matched the same publication
+	for i := range msg.Body {
+		msg.Body[i] ^= 0xa5
+	}
+	msg.Free()
+	return b, nil
 }
 
 func (m *mctx) matches(body string) bool {
@@ -278,8 +292,10 @@ func matchEnum() {
 		sets = append(sets, []string{al[i]})
 	}
 	for i := range al {
-		for j := i + 1; j < len(al); j++ {
-			sets = append(sets, []string{al[i], al[j]})
+		for j := range al {
+			if i != j {
+				sets = append(sets, []string{al[i], al[j]}) // both subscription orders
+			}
 		}
 	}
 	// two free choices keep each within the 250-alternative limit
